@@ -382,7 +382,12 @@ impl Engine {
         let r = self.w.tx_instantiate(Which::Staking, &admin, &msg.to_string());
         self.note_panics();
         if !r.ok {
-            self.v("HARNESS", "boot", format!("instantiate failed: {}", r.err));
+            let tf = ["tf:", "protobuf", "unknown field", "unknown type url", "wrong wire type", "default value encoded", "out of order", "not utf8"];
+            if tf.iter().any(|k| r.err.contains(k)) {
+                self.v("C19", "create_denom_accepted_by_target_chain", format!("the target chain's token factory refused the create-denom message of a valid instantiate: {}", r.err));
+            } else {
+                self.v("HARNESS", "boot", format!("instantiate failed: {}", r.err));
+            }
             return;
         }
         // C19: create-denom for the sub-denom
@@ -766,7 +771,8 @@ impl Engine {
                     .effects
                     .iter()
                     .filter_map(|e| match e {
-                        Effect::OraclePost { msg, contract, .. } if Some(contract) == self.m.cfg.oracle.as_ref() => Some(msg.clone()),
+                        // with an oracle configured: the posts it received; with none: any post at all
+                        Effect::OraclePost { msg, contract, .. } if self.m.cfg.oracle.is_none() || Some(contract) == self.m.cfg.oracle.as_ref() => Some(msg.clone()),
                         _ => None,
                     })
                     .collect();
